@@ -443,11 +443,11 @@ class MementoFunction(MementoFunctionBase):
                             [rule.describe() for rule in changed_rules],
                         )
                     )
-                else:
-                    if self._calculated_version is None:
-                        self._calculated_version = entry.version
-                        self._update_fn_reference()
+                elif self._calculated_version is not None:
                     return
+                # else: this object never computed its version, so it has no rules of its own
+                # that could have vouched for the cached one (which may stem from another object
+                # registered under the same name, e.g. the definition before an edit): compute.
 
         # Otherwise, it needs to be calculated based on code hash and dependencies
         version = self._recompute_version()
